@@ -192,7 +192,7 @@ class C06(Check):
         for (k, target, seq, now, before, token) in it.fault_log:
             if before is not None:
                 calls.setdefault(target, []).append((seq + 0.5, now, before, token))
-        for (seq, act, idx, kind, now, payload) in log:
+        for (seq, act, idx, kind, now, payload, _k) in log:
             if kind == 'cancel_call':
                 calls.setdefault(payload[0], []).append((seq, now, payload[1], payload[2]))
         # --- (a) status at every boundary: forward only, one stable final value, done <=> final
